@@ -141,7 +141,8 @@ fn client_part(case: &Case, url: &str, upload: bool, t0: Instant, obs: &mut Obse
         };
         let mut rb = attohttpc::post(url).proxy_settings(proxy).danger_accept_invalid_certs(true).read_timeout(Duration::from_millis(case.r_ms as u64)).connect_timeout(Duration::from_secs(5)).max_redirections(100);
         if case.t_ms > 0 {
-            rb = rb.timeout(Duration::from_millis(case.t_ms as u64));
+            // t_ms == 1 stands for a budget that is gone before the connection exists (1 ns)
+            rb = rb.timeout(if case.t_ms == 1 { Duration::from_nanos(1) } else { Duration::from_millis(case.t_ms as u64) });
         }
         let res = if upload { rb.bytes(vec![0x55u8; 24 << 20]).send() } else { rb.send() };
         match res {
@@ -305,7 +306,7 @@ fn run_once(case: &Case) -> Result<Observed, String> {
 impl Property for C13 {
     type Case = Case;
     const ID: &'static str = "C13";
-    const RULE: &'static str = "generated fault sequences on real loopback sockets: overall timeout T in [150, 500] ms (or unset), read timeout R either >> T or 100-200 ms; stall point in {server never reads a 24 MiB upload, before any reply byte, \
+    const RULE: &'static str = "generated fault sequences on real loopback sockets: overall timeout T in [150, 500] ms (or unset, or 1 ms i.e. expired before the connection exists, or 2.5 s i.e. far above R), read timeout R either >> T or 100-200 ms; stall point in {server never reads a 24 MiB upload, before any reply byte, \
 inside the status line, inside a header, after the head, inside a chunk-size line, inside chunk data, between chunks, inside a length body, inside a close-delimited body}; stall kind {silent, one byte every r ms with r < R}; redirect chains whose hops \
 are individually fast but together exceed T; and the negative family: responses of all three framings that complete at once, followed by 0..5 further reads some of which happen after T, then drop. Optional schedule perturbation: delays injected at the six \
 labelled points of the watchdog / reader (verif-hooks H3). Oracle S1-S4. non-trivial = the stall begins after the head, or drip-feeding, or a redirect chain, or >= 1 read after end-of-body; distinct by case";
@@ -357,6 +358,11 @@ labelled points of the watchdog / reader (verif-hooks H3). Oracle S1-S4. non-tri
                 v.push(Case { scenario: Scenario::Stall { point: p, drip_ms: 30 }, t_ms: 300, r_ms: 150, reads: vec![1, 100], sched: vec![], tunnel: false });
                 v.push(Case { scenario: Scenario::Stall { point: p, drip_ms: 0 }, t_ms: 0, r_ms: 150, reads: vec![512], sched: vec![], tunnel: false });
             }
+        }
+        for p in [StallPoint::BeforeReply, StallPoint::AfterHead, StallPoint::InChunkData, StallPoint::InLengthBody] {
+            // overall timeout (almost) expired before the connection exists; and read timeout far below the overall timeout
+            v.push(Case { scenario: Scenario::Stall { point: p, drip_ms: 0 }, t_ms: 1, r_ms: 5000, reads: vec![4096], sched: vec![], tunnel: false });
+            v.push(Case { scenario: Scenario::Stall { point: p, drip_ms: 0 }, t_ms: 2500, r_ms: 150, reads: vec![4096], sched: vec![], tunnel: false });
         }
         for framing in 0..3u8 {
             v.push(Case { scenario: Scenario::Complete { framing, payload: 500, extra_reads: vec![(10, 0), (10, 0)] }, t_ms: 300, r_ms: 5000, reads: vec![4096], sched: vec![], tunnel: false });
@@ -420,6 +426,13 @@ labelled points of the watchdog / reader (verif-hooks H3). Oracle S1-S4. non-tri
                         }
                     }
                 }
+                // two more classes of the overall timeout: already (almost) expired when the connection is made, and much
+                // longer than the read timeout (then the read timeout alone must end a silent stall)
+                let (t_ms, r_ms) = match (&scenario, t_ms % 10) {
+                    (Scenario::Stall { point, .. }, 0) if *point != StallPoint::Upload && t_ms != 0 => (1, r_ms),
+                    (Scenario::Stall { drip_ms: 0, point }, 1) if *point != StallPoint::Upload && t_ms != 0 => (2500, r_ms.min(200)),
+                    _ => (t_ms, r_ms),
+                };
                 let r_ms = if t_ms == 0 { r_ms.min(200) } else { r_ms };
                 // the schedule perturbation is meaningful for the schedule-independent halves only (see check)
                 let sched = if matches!(scenario, Scenario::SlowChain { .. }) { vec![] } else { sched };
